@@ -55,14 +55,14 @@ def check(ctx, src):
             ctx.ok("R-ID-MANGLE", key, ",".join(sorted(tags)), nontrivial=bool(tags - {"NONE"}) and not all(t.startswith("LIT") for t in tags))
     ctx.floor("R-ID-MANGLE", 45)
     resolved = ctx.count("R-ID-MANGLE")
-    ctx.require(len(ctx.unresolved) <= 6, f"too many identifier sinks are unresolved ({len(ctx.unresolved)}): the provenance analysis no longer understands the code")
+    ctx.need(len(ctx.unresolved) <= 6, f"too many identifier sinks are unresolved ({len(ctx.unresolved)}): the provenance analysis no longer understands the code")
 
     # --- later stores in Result.rename --------------------------------------------------------
     rn = comp.cp.func("Result.rename")
     ctx.require(rn is not None, "Result.rename not found")
     fnr = world.fn(comp.cp, rn)
     stores = [n for n in ast.walk(rn) if isinstance(n, ast.Assign) and isinstance(n.targets[0], ast.Attribute) and n.targets[0].attr in ("id", "name")]
-    ctx.require(len(stores) >= 2, "Result.rename no longer stores to .id/.name")
+    ctx.need(len(stores) >= 2, "Result.rename no longer stores to .id/.name")
     for st in stores:
         tags = pv.prov(st.value, fnr)
         key = f"{comp.cp.rel}|Result.rename|{norm(st.targets[0])}"
